@@ -34,7 +34,8 @@ type SpecEnv struct {
 
 func (ex *Exec) newSpecEnv(fr *Frame, pc Term, st, old State) *SpecEnv {
 	var pkg *types.Package
-	if fr.fn.Pkg != nil {
+	if fr.fn == nil {
+	} else if fr.fn.Pkg != nil {
 		pkg = fr.fn.Pkg.Pkg
 	} else if fr.fn.Parent() != nil && fr.fn.Parent().Pkg != nil {
 		pkg = fr.fn.Parent().Pkg.Pkg
@@ -304,6 +305,9 @@ func (se *SpecEnv) ident(name string) SVal {
 			return se.fail("local %s not yet allocated at this point", name)
 		}
 		// free variables of closures
+		if f.fn == nil {
+			continue
+		}
 		for i, fv := range f.fn.FreeVars {
 			if fv.Name() == base {
 				el := fv.Type().Underlying().(*types.Pointer).Elem()
@@ -337,6 +341,9 @@ func (se *SpecEnv) ident(name string) SVal {
 }
 
 func paramType(fn *ssa.Function, name string) types.Type {
+	if fn == nil {
+		return nil
+	}
 	for _, p := range fn.Params {
 		if p.Name() == name {
 			return p.Type()
@@ -680,6 +687,9 @@ func (se *SpecEnv) call(e *SCall) SVal {
 	args := make([]SVal, len(e.Args))
 	for i, a := range e.Args {
 		args[i] = se.eval(a)
+	}
+	if pr.Rec {
+		return se.callRec(pr, args)
 	}
 	saved := se.vars
 	nv := map[string]SVal{}
